@@ -589,3 +589,10 @@ package errbase
 //@   requires typeis(err, *os.LinkError)
 //@   ensures[C03] typeis(details, *errorspb.StringsPayload) && len(details.(*errorspb.StringsPayload).Details) == 3 && safeS(details.(*errorspb.StringsPayload).Details[0])
 //@   ensures[C03] safeSeq(safe)
+
+// ---- printer internals (C09 / C06): what the printers do to the operands they are handed ----
+// detail(): answers wantDetail; saying yes switches the state over to the detail buffer
+//@ method (*state).detail
+//@   props C09 C05
+//@   ensures result == old(self.wantDetail)
+//@   ensures result ==> self.hasDetail
